@@ -104,6 +104,16 @@ class SV(object):
             return NotImplemented
         return SV(to_real(a).t / to_real(b).t)
 
+    def __floordiv__(self, o):
+        if isinstance(o, int) and o > 0 and self.kind == "int":
+            return SV(self.t / o, "int")  # z3 integer division is euclidean: floor for a positive divisor
+        return NotImplemented
+
+    def __mod__(self, o):
+        if isinstance(o, int) and o > 0 and self.kind == "int":
+            return SV(self.t % o, "int")
+        return NotImplemented
+
     def __neg__(self):
         return SV(-self.t)
 
